@@ -39,6 +39,9 @@ type Opts struct {
 	OnHeader func(h ws.Header, rd *wsutil.Reader)
 	// MaxEvents stops the driver after that many events (0 = until error).
 	MaxEvents int
+	// ContRead: the OnContinuation handler reads the body of every continuation frame itself (what a
+	// FrameHandlerFunc is for) and hands it to the consumer; Read then finds those frames drained.
+	ContRead bool
 	// Wrap puts the transport behind another kind of io.Reader before the library
 	// sees it (see Wraps); "" = as given.
 	Wrap string
@@ -171,7 +174,24 @@ func Run(src io.Reader, o Opts) (obs Obs) {
 			ctlh = wsutil.ControlFrameHandler(dst, st)
 			rd.OnIntermediate = ctlh
 		}
-		rd.OnContinuation = func(h ws.Header, r io.Reader) error { obs.ContCalls++; return nil }
+		var cur *[]byte // the message being read (nil: none, or one that is being thrown away)
+		rd.OnContinuation = func(h ws.Header, r io.Reader) error {
+			obs.ContCalls++
+			if !o.ContRead {
+				return nil
+			}
+			var body []byte
+			if err := readAll(r, make([]byte, 1+o.Buf%7), &body); err != nil {
+				return err
+			}
+			if cur != nil {
+				*cur = append(*cur, body...)
+			}
+			return nil
+		}
+		if o.ContRead && len(buf) == CopyBuf {
+			buf = make([]byte, 4096) // (io.Copy collects its bytes apart: the handler's bytes would come out of order)
+		}
 		for ord := 0; !full(); {
 			h, err := rd.NextFrame()
 			if err != nil {
@@ -226,7 +246,10 @@ func Run(src io.Reader, o Opts) (obs Obs) {
 			}
 			var p []byte
 			obs.InMessage, obs.PartialOp = true, byte(h.OpCode)
-			if err := readAll(rd, buf, &p); err != nil {
+			cur = &p
+			err = readAll(rd, buf, &p)
+			cur = nil
+			if err != nil {
 				obs.Err = err
 				obs.Partial = p
 				obs.Spin = err == errSpin
